@@ -8,14 +8,13 @@ open GS.Alloc
 theorem getD_topics {m : InFlight} {U : List Sub} {tp : List (Topic × List Sub)} (h : tp = [(m.topic, U)]) :
     (aget tp m.topic).getD [] = U := by rw [h]; simp [aget]
 
-/-- result of a queue-goroutine step: `AI` and `W` -/
+/-- result of a step: `AI` and `W` -/
 def StepOK (f : Req → Sub) (s s' : State) : Prop := AI f s' ∧ ∀ u t, W f u t s → W f u t s'
 
 theorem stepOK_of_outW {f : Req → Sub} {s s' : State} (hai : AI f s) (o : OutW f s s')
     (hinfl : ∀ m, s'.pc.inflight = some m → ∀ r ∈ m.streams, f r ∈ (aget s'.topics m.topic).getD []) : StepOK f s s' :=
   ⟨⟨o.bfun hai.bfun, o.wcore.wfun hai.wfun, hinfl⟩, o.w hai.bfun⟩
 
-/-- outcome of `attempt` (and of what follows an extraction) -/
 theorem attempt_stepOK (pick : Pick) (f : Req → Sub) {s0 s : State} {m : InFlight} {U : List Sub} {σ : List Kind} {b : Bool}
     (i : Nat) (hai : AI f s0) (o0 : OutW f s0 s) (hm : Mid s m U σ b) (hU : ∀ r ∈ m.streams, f r ∈ U) :
     StepOK f s0 (s.attempt pick m i) := by
@@ -24,12 +23,271 @@ theorem attempt_stepOK (pick : Pick) (f : Req → Sub) {s0 s : State} {m : InFli
   unfold State.attempt
   split
   · intro m' hm' r hr
-    have : m' = m := by simpa [Pc.inflight] using hm'.symm
+    have : m = m' := by simpa [Pc.inflight] using hm'
     subst this
-    show f r ∈ (aget (s.emit [Event.wire m'.topic i]).topics m'.topic).getD []
-    rw [(emit_frame s _).topics.symm ▸ getD_topics hm.topics] at *
-    sorry
+    show f r ∈ (aget s.topics m.topic).getD []
+    rw [getD_topics hm.topics]; exact hU r hr
   · intro m' hm'
     simp [State.finish, Pc.inflight] at hm'
+
+theorem errfin_stepOK (pick : Pick) (f : Req → Sub) {s0 s : State} {m : InFlight} {U : List Sub} {σ : List Kind} {b : Bool}
+    (hai : AI f s0) (o0 : OutW f s0 s) (hm : Mid s m U σ b) (hU : ∀ r ∈ m.streams, f r ∈ U) :
+    StepOK f s0 ((s.publishError pick m).finish m) := by
+  have o := o0.trans ((publishError_out pick f hm hU).trans (finish_out f _ m)).toW
+  apply stepOK_of_outW hai o
+  intro m' hm'
+  simp [State.finish, Pc.inflight] at hm'
+
+/-- pure field updates that keep builders, closed streams, waiters, log and topics -/
+theorem fields_stepOK (f : Req → Sub) {s s' : State} (hai : AI f s) (hb : s'.builders = s.builders)
+    (hc : s'.closedStreams = s.closedStreams) (hw : s'.waiters = s.waiters) (hl : s'.log = s.log)
+    (ht : s'.topics = s.topics)
+    (hpc : ∀ m, s'.pc.inflight = some m → s.pc.inflight = some m) : StepOK f s s' := by
+  have o : Out f s s' := Out.same f hb hc (WCore.of_eq hw) ⟨[], by rw [hl]; simp⟩
+  apply stepOK_of_outW hai o.toW
+  intro m hm r hr
+  rw [ht]; exact hai.infl m (hpc m hm) r hr
+
+/-- the blocked call returns -/
+theorem ack_stepOK (pick : Pick) (f : Req → Sub) {s : State} (hn : NInv s) (hai : AI f s) (ok : Bool) :
+    StepOK f s (s.ack pick ok) := by
+  obtain ⟨peer, maxRetries, builders, nextTopic, token, done, sender, pc, closedStreams, waiters,
+    nextTicket, topics, pubClosed, alloc, log⟩ := s
+  cases pc with
+  | idle => exact ⟨hai, fun _ _ h => h⟩
+  | exited => exact ⟨hai, fun _ _ h => h⟩
+  | exiting =>
+    unfold State.ack
+    simp only
+    have o1 := allocStep_out pick f (⟨peer, maxRetries, builders, nextTopic, token, done, sender, .exiting, closedStreams, waiters,
+      nextTicket, topics, pubClosed, alloc, log⟩ : State) (.releasePeer peer)
+    generalize (State.allocStep pick (⟨peer, maxRetries, builders, nextTopic, token, done, sender, .exiting, closedStreams, waiters,
+      nextTicket, topics, pubClosed, alloc, log⟩ : State) (.releasePeer peer)).1 = s1 at o1
+    have o2 : Out f s1 s1.pubShutdown := frame_out f (pubShutdown_frame s1) (pubShutdown_ext pick s1).mono
+    have o3 : Out f s1.pubShutdown ({ s1.pubShutdown.emit [Event.exitCallback] with pc := .exited } : State) :=
+      Out.same f rfl rfl (WCore.of_eq rfl) ⟨_, rfl⟩
+    apply stepOK_of_outW hai ((o1.trans o2).trans o3).toW
+    intro m hm; simp [Pc.inflight] at hm
+  | opening m r =>
+    have hmid : ∃ U b, Mid (⟨peer, maxRetries, builders, nextTopic, token, done, sender, .opening m r, closedStreams, waiters,
+        nextTicket, topics, pubClosed, alloc, log⟩ : State) m U [Kind.queued] b := by
+      cases r with
+      | none => obtain ⟨U, h⟩ := hn; exact ⟨U, _, h⟩
+      | some i => obtain ⟨U, h⟩ := hn; exact ⟨U, _, h⟩
+    obtain ⟨U, b, hm⟩ := hmid
+    have hU : ∀ x ∈ m.streams, f x ∈ U := by
+      intro x hx
+      have := hai.infl m rfl x hx
+      rw [getD_topics hm.topics] at this; exact this
+    cases r with
+    | none =>
+      unfold State.ack
+      simp only
+      split
+      · have hm' : Mid (⟨peer, maxRetries, builders, nextTopic, token, done, true, .opening m none, closedStreams, waiters,
+            nextTicket, topics, pubClosed, alloc, log⟩ : State) m U [Kind.queued] b := hm.frame ⟨rfl, rfl, rfl, rfl, rfl⟩
+        have oS : Out f (⟨peer, maxRetries, builders, nextTopic, token, done, sender, .opening m none, closedStreams, waiters,
+            nextTicket, topics, pubClosed, alloc, log⟩ : State)
+            (⟨peer, maxRetries, builders, nextTopic, token, done, true, .opening m none, closedStreams, waiters,
+            nextTicket, topics, pubClosed, alloc, log⟩ : State) := Out.same f rfl rfl (WCore.of_eq rfl) ⟨[], by simp⟩
+        exact attempt_stepOK pick f 0 hai oS.toW hm' hU
+      · have o1 := publishError_out pick f hm hU
+        have hm1 := hm.publishError pick
+        generalize State.publishError pick _ m = s1 at o1 hm1
+        have o2 : Out f s1 ({ s1 with done := true } : State) := Out.same f rfl rfl (WCore.of_eq rfl) ⟨[], by simp⟩
+        have o := ((o1.trans o2).trans (finish_out f _ m)).toW
+        apply stepOK_of_outW hai o
+        intro m' hm'; simp [State.finish, Pc.inflight] at hm'
+    | some i =>
+      unfold State.ack
+      simp only
+      split
+      · have hm' : Mid (⟨peer, maxRetries, builders, nextTopic, token, done, true, .opening m (some i), closedStreams, waiters,
+            nextTicket, topics, pubClosed, alloc, log⟩ : State) m U [Kind.queued] b := hm.frame ⟨rfl, rfl, rfl, rfl, rfl⟩
+        have oS : Out f (⟨peer, maxRetries, builders, nextTopic, token, done, sender, .opening m (some i), closedStreams, waiters,
+            nextTicket, topics, pubClosed, alloc, log⟩ : State)
+            (⟨peer, maxRetries, builders, nextTopic, token, done, true, .opening m (some i), closedStreams, waiters,
+            nextTicket, topics, pubClosed, alloc, log⟩ : State) := Out.same f rfl rfl (WCore.of_eq rfl) ⟨[], by simp⟩
+        exact attempt_stepOK pick f (i + 1) hai oS.toW hm' hU
+      · exact errfin_stepOK pick f hai (Out.refl f _).toW hm hU
+  | sending m i =>
+    obtain ⟨U, hm⟩ : ∃ U, Mid (⟨peer, maxRetries, builders, nextTopic, token, done, sender, .sending m i, closedStreams, waiters,
+        nextTicket, topics, pubClosed, alloc, log⟩ : State) m U [Kind.queued] false := hn
+    unfold State.ack
+    simp only
+    split
+    · have o := ((publishSent_out pick f (⟨peer, maxRetries, builders, nextTopic, token, done, sender, .sending m i, closedStreams, waiters,
+        nextTicket, topics, pubClosed, alloc, log⟩ : State) m).trans (finish_out f _ m)).toW
+      apply stepOK_of_outW hai o
+      intro m' hm'; simp [State.finish, Pc.inflight] at hm'
+    · exact fields_stepOK f hai rfl rfl rfl rfl rfl (fun m' h => by simpa [Pc.inflight] using h)
+  | resetting m i =>
+    obtain ⟨U, hm⟩ : ∃ U, Mid (⟨peer, maxRetries, builders, nextTopic, token, done, sender, .resetting m i, closedStreams, waiters,
+        nextTicket, topics, pubClosed, alloc, log⟩ : State) m U [Kind.queued] false := hn
+    have hU : ∀ x ∈ m.streams, f x ∈ U := by
+      intro x hx
+      have := hai.infl m rfl x hx
+      rw [getD_topics hm.topics] at this; exact this
+    unfold State.ack
+    simp only
+    split
+    · exact errfin_stepOK pick f hai (Out.refl f _).toW hm hU
+    · exact fields_stepOK f hai rfl rfl rfl rfl rfl (fun m' h => by simpa [Pc.inflight] using h)
+
+/-- one iteration of the select loop -/
+theorem run_stepOK (pick : Pick) (f : Req → Sub) {s : State} (hn : NInv s) (hai : AI f s) (pw : Bool) :
+    StepOK f s (s.run pick pw) := by
+  obtain ⟨peer, maxRetries, builders, nextTopic, token, done, sender, pc, closedStreams, waiters,
+    nextTicket, topics, pubClosed, alloc, log⟩ := s
+  cases pc with
+  | idle =>
+    have hi : Idle (⟨peer, maxRetries, builders, nextTopic, token, done, sender, .idle, closedStreams, waiters,
+        nextTicket, topics, pubClosed, alloc, log⟩ : State) := hn
+    unfold State.run
+    simp only
+    split
+    · have hi0 : Idle (⟨peer, maxRetries, builders, nextTopic, false, done, sender, .idle, closedStreams, waiters,
+          nextTicket, topics, pubClosed, alloc, log⟩ : State) := hi.frame ⟨rfl, rfl, rfl, rfl, rfl⟩
+      have o0 : OutW f (⟨peer, maxRetries, builders, nextTopic, token, done, sender, .idle, closedStreams, waiters,
+          nextTicket, topics, pubClosed, alloc, log⟩ : State)
+          (⟨peer, maxRetries, builders, nextTopic, false, done, sender, .idle, closedStreams, waiters,
+          nextTicket, topics, pubClosed, alloc, log⟩ : State) := by
+        have oS : Out f (⟨peer, maxRetries, builders, nextTopic, token, done, sender, .idle, closedStreams, waiters,
+            nextTicket, topics, pubClosed, alloc, log⟩ : State)
+            (⟨peer, maxRetries, builders, nextTopic, false, done, sender, .idle, closedStreams, waiters,
+            nextTicket, topics, pubClosed, alloc, log⟩ : State) := Out.same f rfl rfl (WCore.of_eq rfl) ⟨[], by simp⟩
+        exact oS.toW
+      cases he : (⟨peer, maxRetries, builders, nextTopic, false, done, sender, .idle, closedStreams, waiters,
+          nextTicket, topics, pubClosed, alloc, log⟩ : State).extract with
+      | mk s1 om =>
+        cases om with
+        | none =>
+          obtain ⟨a1, a2, _, a4, _⟩ := (extract_shape _).1 s1 he
+          have hrest : s1.closedStreams = closedStreams ∧ s1.waiters = waiters ∧ s1.log = log := by
+            unfold State.extract at he
+            split at he
+            · cases he; exact ⟨rfl, rfl, rfl⟩
+            · cases he
+          show StepOK f _ s1
+          refine ⟨⟨fun b hb => (by rw [a1] at hb; cases hb), fun w hw => hai.wfun w (by rw [← hrest.2.1]; exact hw), ?_⟩, ?_⟩
+          · intro m hm; rw [a4] at hm; simp [Pc.inflight] at hm
+          · intro u t hw
+            rcases hw with ⟨x, hx, ha⟩ | h | h
+            · have := ha.nonempty; rw [a2 x hx] at this; cases this
+            · exact Or.inr (Or.inl (by rw [hrest.2.2]; exact h))
+            · exact Or.inr (Or.inr (h.mono (fun r hr => by rw [hrest.1]; exact hr) ⟨[], by rw [hrest.2.2]; simp⟩))
+        | some m =>
+          rcases extract_publish_W f hi0 he Kind.queued with ⟨U, h⟩
+          rcases h with ⟨hmid, hU, ow⟩ | hnb
+          · have o1 := o0.trans ow
+            show StepOK f _ (if (s1.publish m.topic Kind.queued).sender = true then _ else _)
+            split
+            · exact attempt_stepOK pick f 0 hai o1 hmid hU
+            · have o2 : Out f (s1.publish m.topic Kind.queued) ({ s1.publish m.topic Kind.queued with pc := .opening m none } : State) :=
+                Out.same f rfl rfl (WCore.of_eq rfl) ⟨[], by simp⟩
+              apply stepOK_of_outW hai (o1.trans o2.toW)
+              intro m' hm' r hr
+              have : m = m' := by simpa [Pc.inflight] using hm'
+              subst this
+              show f r ∈ (aget (s1.publish m.topic Kind.queued).topics m.topic).getD []
+              rw [getD_topics hmid.topics]; exact hU r hr
+          · exact absurd hai.bfun hnb
+    · split
+      · have key : ∀ s1 : State, OutW f (⟨peer, maxRetries, builders, nextTopic, token, done, sender, .idle, closedStreams, waiters,
+            nextTicket, topics, pubClosed, alloc, log⟩ : State) s1 →
+            StepOK f (⟨peer, maxRetries, builders, nextTopic, token, done, sender, .idle, closedStreams, waiters,
+            nextTicket, topics, pubClosed, alloc, log⟩ : State)
+              ({ (if s1.sender = true then s1.emit [Event.senderClosed] else s1) with pc := .exiting } : State) := by
+          intro s1 o1
+          have o2 : Out f s1 ({ (if s1.sender = true then s1.emit [Event.senderClosed] else s1) with pc := .exiting } : State) := by
+            have e : Out f s1 (if s1.sender = true then s1.emit [Event.senderClosed] else s1) := by
+              split
+              · exact Out.same f rfl rfl (WCore.of_eq rfl) ⟨_, rfl⟩
+              · exact Out.refl f s1
+            exact e.trans (Out.same f rfl rfl (WCore.of_eq rfl) ⟨[], by simp⟩)
+          apply stepOK_of_outW hai (o1.trans o2.toW)
+          intro m hm; simp [Pc.inflight] at hm
+        split
+        · have hi0 : Idle (⟨peer, maxRetries, builders, nextTopic, false, done, sender, .idle, closedStreams, waiters,
+              nextTicket, topics, pubClosed, alloc, log⟩ : State) := hi.frame ⟨rfl, rfl, rfl, rfl, rfl⟩
+          have o0 : OutW f (⟨peer, maxRetries, builders, nextTopic, token, done, sender, .idle, closedStreams, waiters,
+              nextTicket, topics, pubClosed, alloc, log⟩ : State)
+              (⟨peer, maxRetries, builders, nextTopic, false, done, sender, .idle, closedStreams, waiters,
+              nextTicket, topics, pubClosed, alloc, log⟩ : State) := by
+            have oS : Out f (⟨peer, maxRetries, builders, nextTopic, token, done, sender, .idle, closedStreams, waiters,
+                nextTicket, topics, pubClosed, alloc, log⟩ : State)
+                (⟨peer, maxRetries, builders, nextTopic, false, done, sender, .idle, closedStreams, waiters,
+                nextTicket, topics, pubClosed, alloc, log⟩ : State) := Out.same f rfl rfl (WCore.of_eq rfl) ⟨[], by simp⟩
+            exact oS.toW
+          exact key _ (o0.trans (drain_W pick f _ _ hi0))
+        · exact key _ (Out.refl f _).toW
+      · exact ⟨hai, fun _ _ h => h⟩
+  | opening m r => exact ⟨hai, fun _ _ h => h⟩
+  | sending m i => exact ⟨hai, fun _ _ h => h⟩
+  | resetting m i => exact ⟨hai, fun _ _ h => h⟩
+  | exiting => exact ⟨hai, fun _ _ h => h⟩
+  | exited => exact ⟨hai, fun _ _ h => h⟩
+
+theorem buildWith_stepOK (pick : Pick) (f : Req → Sub) {s : State} (hai : AI f s) (tx : Tx) (size : Nat)
+    (hf : tx.sub = f tx.req) : StepOK f s (buildWith pick s tx size) := by
+  obtain ⟨h1, h2, h3, h4⟩ := buildWith_att pick f s tx size hf
+  obtain ⟨b1, a1⟩ := h1 hai.bfun
+  have hpc := buildWith_pc pick s tx size
+  have htp := (buildWith_quiet pick s tx size).topics
+  refine ⟨⟨b1, h4 hai.wfun, ?_⟩, ?_⟩
+  · intro m hm r hr; rw [htp]; rw [hpc] at hm; exact hai.infl m hm r hr
+  · intro u t hw
+    rcases hw with h | h | h
+    · rcases a1 u t h with h' | h'
+      · exact Or.inl h'
+      · exact Or.inr (Or.inr h')
+    · exact Or.inr (Or.inl ((seq_mono h3 u t).1 h))
+    · exact Or.inr (Or.inr (h.mono h2 h3))
+
+/-- every step, with transactions carrying their request's own subscriber -/
+theorem step_stepOK (pick : Pick) (f : Req → Sub) {s : State} (hj : J s) (hai : AI f s) (a : Act)
+    (hfa : ∀ tx, a = .build tx → tx.sub = f tx.req) : StepOK f s (step pick s a) := by
+  cases a with
+  | run pw =>
+    rcases hj with hf | hn
+    · show StepOK f s (s.run pick pw); rw [run_exited _ _ _ hf.pc]; exact ⟨hai, fun _ _ h => h⟩
+    · exact run_stepOK pick f hn hai pw
+  | ack ok =>
+    rcases hj with hf | hn
+    · show StepOK f s (s.ack pick ok); rw [ack_exited _ _ _ hf.pc]; exact ⟨hai, fun _ _ h => h⟩
+    · exact ack_stepOK pick f hn hai ok
+  | shutdown => exact fields_stepOK f hai rfl rfl rfl rfl rfl (fun m h => h)
+  | env op =>
+    have o := allocStep_out pick f s op
+    apply stepOK_of_outW hai o.toW
+    intro m hm r hr; exact hai.infl m hm r hr
+  | build tx =>
+    have hf := hfa tx rfl
+    show StepOK f s (s.build pick tx)
+    rw [build_eq]
+    split
+    · exact ⟨hai, fun _ _ h => h⟩
+    · exact buildWith_stepOK pick f hai tx _ hf
+  | wake t0 =>
+    show StepOK f s (s.wake pick t0)
+    have hpc := wake_pc pick s t0
+    have htp := (wake_quiet pick s t0).topics
+    rcases wake_att pick f s t0 hai.wfun with o | ⟨s1, e1, e2, e3, e4, o⟩
+    · apply stepOK_of_outW hai o.toW
+      intro m hm r hr; rw [htp]; rw [hpc] at hm; exact hai.infl m hm r hr
+    · have hb1 : ∀ b ∈ s1.builders, BFun f b := by rw [e1]; exact hai.bfun
+      obtain ⟨b2, a2⟩ := o.att hb1
+      refine ⟨⟨b2, o.wcore.wfun (fun w hw => hai.wfun w (e4 w hw)), ?_⟩, ?_⟩
+      · intro m hm r hr; rw [htp]; rw [hpc] at hm; exact hai.infl m hm r hr
+      · intro u t hw
+        have hw1 : W f u t s1 := by
+          rcases hw with ⟨x, hx, ha⟩ | h | ⟨r, hr, h⟩
+          · exact Or.inl ⟨x, by rw [e1]; exact hx, ha⟩
+          · exact Or.inr (Or.inl (by rw [e3]; exact h))
+          · exact Or.inr (Or.inr ⟨r, by rw [e2]; exact hr, by rw [e3]; exact h⟩)
+        exact W.of_out o hb1 hw1
+
+theorem init_AI (f : Req → Sub) (peer mr mt mp : Nat) : AI f (init peer mr mt mp) :=
+  ⟨by intro b hb; simp [init] at hb, by intro w hw; simp [init] at hw, by intro m hm; simp [init, Pc.inflight] at hm⟩
 
 end GS.MQ
